@@ -17,6 +17,9 @@ Init == \/ kind = "usize" /\ c \in {[v |-> b] : b \in {x \in Boundary : LessN(x,
                TraceInfoAccepted(main, aux, rands, ln, ml) /\ c = [main |-> main, aux |-> aux, rands |-> rands, ln |-> ln, metalen |-> ml]
         \/ kind = "options" /\ \E q \in {1, 2, 128, 255}, b \in {2, 128}, g \in {0, 32}, ext \in 1..3, f \in {2, 16}, rem \in {0, 127, 255} :
                OptionsAccepted(q, b, g, f, rem) /\ c = [q |-> q, blowup |-> b, grind |-> g, ext |-> ext, fold |-> f, rem |-> rem]
+        \* proof contexts up to the largest LDE domain the constructor admits (2^31), with every blowup factor
+        \/ kind = "context" /\ \E ln \in {3, 10} \cup 23..30, lb \in 1..7, fld \in {62, 64, 128}, aux \in {0, 3} :
+               ContextAccepted(ln, lb) /\ (ln + lb >= 30 \/ ln = 3) /\ c = [ln |-> ln, lb |-> lb, field |-> fld, aux |-> aux]
 Next == UNCHANGED vars
 
 RoundTripInv == kind = "usize" => UsizeRoundTrip(c.v) /\ Len(EncUsize(c.v)) \in 1..9
@@ -24,5 +27,6 @@ Emit == CASE kind = "usize" -> PrintT(ToJson([kind |-> kind, v |-> ToBytes(c.v, 
           [] kind = "uint" -> (Len(NormN(c.v)) <= c.w => PrintT(ToJson([kind |-> kind, w |-> c.w, v |-> ToBytes(c.v, 16), enc |-> EncUInt(c.v, c.w)])))
           [] kind = "traceinfo" -> PrintT(ToJson([kind |-> kind, d |-> c,
                                                   enc |-> EncTraceInfo(c.main, c.aux, c.rands, c.ln, [i \in 1..c.metalen |-> i % 251])]))
+          [] kind = "context" -> PrintT(ToJson([kind |-> kind, d |-> c]))
           [] kind = "options" -> PrintT(ToJson([kind |-> kind, d |-> c, enc |-> EncOptions(c.q, c.blowup, c.grind, c.ext, c.fold, c.rem)]))
 =============================================================================
